@@ -4,7 +4,7 @@ package p_lru
 
 import "github.com/acquirecloud/golibs/container/lru"
 
-// hooksOn: the accessor is looked up through an interface assertion, so this file also compiles
+// hooksOn: the accessors are looked up through interface assertions, so this file also compiles
 // when the overlay is absent (C08 needs no hook); walkRes.OK tells whether it was really there.
 const hooksOn = true
 
@@ -21,4 +21,17 @@ func walkOf[PK any, K comparable, V any](e *lru.ECache[PK, K, V]) func() walkRes
 		n, d, r, res, inf, sane := wk.VerifWalk()
 		return walkRes{Nodes: n, Deleted: d, RefSum: r, Resident: res, Inflight: inf, Sane: sane, OK: true}
 	}
+}
+
+type locker interface {
+	VerifWithLock(f func())
+}
+
+// withLockOf returns a function that runs its argument while holding the cache's own mutex (nil if the overlay accessor is absent).
+func withLockOf[PK any, K comparable, V any](e *lru.ECache[PK, K, V]) func(func()) {
+	lk, ok := any(e).(locker)
+	if !ok {
+		return nil
+	}
+	return lk.VerifWithLock
 }
